@@ -96,6 +96,16 @@ pub fn enumerate(p: &Plan, f: &mut dyn FnMut(u64, &'static str, &[u8])) -> u64 {
     base += spaces::space_s(p.s_k.min(2), 0, &mut |i, c| f(s0 + i, "S", c));
     let sp = base;
     base += spaces::space_sp(&mut |i, c| f(sp + i, "S", c));
+    // straight-line statement sequences (no enclosing loop)
+    let l0 = base;
+    base += spaces::space_l(0, 2, &mut |i, c| f(l0 + i, "S", c));
+    if p.s_k >= 3 {
+        let l3 = base;
+        base += spaces::space_l(3, 3, &mut |i, c| f(l3 + i, "S3", c));
+    } else {
+        let l3 = base;
+        base += spaces::space_l3_reduced(&mut |i, c| f(l3 + i, "S", c));
+    }
     if p.s_k < 3 && p.n_depth >= 5 {
         // quick tier of the IR interpreter: three additive statements (the full three-statement space is thorough only)
         let s3r = base;
@@ -147,6 +157,8 @@ pub fn enumerate(p: &Plan, f: &mut dyn FnMut(u64, &'static str, &[u8])) -> u64 {
         });
         base += n;
     }
+    let i0 = base;
+    base += spaces::space_i(if p.w_full { 4 } else { 3 }, &mut |i, c| f(i0 + i, "I", c));
     let n0 = base;
     base += spaces::space_n(p.w_full, p.n_depth, &mut |i, c| f(n0 + i, "N", c));
     for (_, c) in spaces::space_k() {
@@ -412,7 +424,7 @@ pub fn info(tier: Tier, prop: &'static str, backend: Backend) -> CheckInfo {
              balanced string over +-<>.,[] of length <= {}), B (every sequence of <= {} idiom tokens), S (statement language over three \
              variables: x+=1, x-=1, x=0, out, in, x+=y destructive/preserving, x=y, x+=2y, x+=3y, x-=y, x+=y*z, x+=y*y; every body of \
              <= {} statements inside 4 loop shapes, 3 initialisations; also every loop around <= 1 statement followed by one statement \
-             after the loop){}, W (k-cell rotations with per-cell forms copy/x2/x3/negate/ \
+             after the loop; also every straight-line sequence of <= 2 statements at top level (3 in the thorough tier; in the quick tier the compute / disturb / overwrite triples)){}, W (k-cell rotations with per-cell forms copy/x2/x3/negate/ \
              shared/shared+const/+const/div3/product/wide constant: default, every single deviation, uniform and alternating \
              assignments{}), P (prefix chains: k data cells, one loop iteration runs the links d[i+1] op= d[i] in order with op from \
              add/sub/add+5/add 3x/mul/reverse-sub/add-7/mul then x3/add + wide constant/mul + wide constant, so partial sums and \
@@ -424,7 +436,8 @@ pub fn info(tier: Tier, prop: &'static str, backend: Backend) -> CheckInfo {
              the closed-form trip count is compared with q by a zero test, on every single input byte){}, \
              V (an input byte shifted left by 4k bits, k up to 16, used as loop/branch condition; optimising \
              configurations only, accelerated reference), N (a loop whose body is every sequence of <= {} tokens from moves, scans \
-             [>] [<], stationary loops [] [-], + and . that contains a scan, 3 prefixes, with and without a final output) and the \
+             [>] [<], stationary loops [] [-], + and . that contains a scan, 3 prefixes, with and without a final output), I (an outer loop around every sequence of <= 3 tokens (4 thorough) from , . + - > < [-] [>[-]] [<[-]] [[-]>] \
+             that contains a shifting at-most-once loop, 3 prefixes, 3 suffixes) and the \
              repository corpus K. For each program and width the input choice tree \
              is explored on demand (alphabet {{0,1,2,128,255}} then end of input, depth {}; depth {} for S; fixed scripts of distinct \
              non-zero bytes for W, V, R and K). Every node whose canonical run halts within {} steps is executed on backend `{}` at \
